@@ -256,16 +256,35 @@ def crash_or_stuck_verdicts(prog, hist, outcome, rc, output, prop):
                            (hist.n if hist else "?"), dict(kind="stuck"), kind="stuck", events=tail_events(hist)))
     elif outcome == "crashed":
         sig = -rc if rc is not None else 0
-        out.append(Verdict("executor died by signal %d on a sound program: %s" % (sig, summarise_output(output)), dict(kind="crash", signal=sig),
-                           kind="crash", events=tail_events(hist)))
+        frames = crash_frames(output)
+        out.append(Verdict("executor died by signal %d on a sound program: %s%s" % (sig, summarise_output(output), (" [library frames: %s]" % " < ".join(frames[:6])) if frames else ""),
+                           dict(kind="crash", signal=sig, frames="<".join(frames[:8])), kind="crash", events=tail_events(hist)))
     elif outcome.startswith("exit"):
         out.append(Verdict("executor exited with status %s: %s" % (outcome, summarise_output(output)), dict(kind="crash", status=outcome), kind="crash"))
     # inconclusive: never a violation
     return out
 
 
+def crash_frames(output):
+    """function names of the libdispatch frames in the executor's fatal-signal backtrace (dvm_common.h prints module+offset)"""
+    import re, subprocess
+    offs, lib = [], None
+    for l in (output or "").splitlines():
+        m = re.match(r"^(\S*libdispatch\.so)\(\+(0x[0-9a-f]+)\)", l)
+        if m:
+            lib = m.group(1)
+            offs.append(m.group(2))
+    if not offs:
+        return []
+    try:
+        r = subprocess.run(["llvm-symbolizer-14", "--no-inlines", "--functions=short", "--obj=" + lib] + offs, stdout=subprocess.PIPE, stderr=subprocess.DEVNULL, text=True, timeout=30)
+        return [l.strip() for l in r.stdout.splitlines() if l.strip() and not l.startswith("/") and not l.startswith("?")]
+    except Exception:
+        return []
+
+
 def summarise_output(output):
-    lines = [l for l in (output or "").splitlines() if l.strip()]
+    lines = [l for l in (output or "").splitlines() if l.strip() and "libdispatch.so(+" not in l and "libc.so" not in l and "dvm: fatal signal" not in l and "(+0x" not in l]
     for l in lines:
         if "ERROR: AddressSanitizer" in l or "BUG IN" in l or "ERROR: LeakSanitizer" in l:
             return l.strip()[:300]
